@@ -125,6 +125,62 @@ def run_cases(ctx, exe, hargs, cases, keyfn, tag, env=None, chunk=20000, max_key
     return nscripts, nsteps, nfail
 
 
+class CaseStream:
+    """Runs cases through the harness in the background while TLC is still producing them.
+        cs = CaseStream(ctx, exe, hargs, keyfn, tag);  cs.add(case) ...;  totals = cs.close()"""
+
+    def __init__(self, ctx, exe, hargs, keyfn, tag, chunk=10000, env=None):
+        import threading, queue
+        self.ctx, self.exe, self.hargs, self.keyfn, self.tag, self.chunk, self.env = ctx, exe, hargs, keyfn, tag, chunk, env
+        self.q = queue.Queue(maxsize=8)
+        self.buf = []
+        self.err = []
+        self.n = 0
+        self.parts = 0
+        self.th = threading.Thread(target=self._work, daemon=True)
+        self.th.start()
+
+    def _work(self):
+        k = 0
+        while True:
+            part = self.q.get()
+            if part is None:
+                return
+            k += 1
+            try:
+                if not self.err:
+                    run_cases(self.ctx, self.exe, self.hargs, part, self.keyfn, "%s#%d" % (self.tag, k), env=self.env)
+            except Exception as e:      # surfaced by close()
+                self.err.append(e)
+
+    def add(self, case):
+        self.n += 1
+        self.buf.append(case)
+        if len(self.buf) >= self.chunk:
+            self.q.put(self.buf)
+            self.buf = []
+
+    def close(self):
+        if self.buf:
+            self.q.put(self.buf)
+            self.buf = []
+        self.q.put(None)
+        self.th.join()
+        if self.err:
+            raise self.err[0]
+        rp = self.ctx.cov.get("replay", {})
+        tot = {"scripts": 0, "steps": 0, "failed_steps": 0, "remainder_reruns": 0, "wall_s": 0.0}
+        for k in [k for k in rp if k.startswith(self.tag + "#")]:
+            for f in tot:
+                tot[f] += rp[k][f]
+            del rp[k]
+        tot["wall_s"] = round(tot["wall_s"], 1)
+        rp[self.tag] = tot
+        if tot["scripts"] != self.n:
+            raise Broken("%s: %d cases queued but %d scripts replayed" % (self.tag, self.n, tot["scripts"]))
+        return tot
+
+
 def fail_class(f):
     """kind (+ ASan class and first library frame for crashes)"""
     if f.kind in ("crash", "hang", "exit"):
